@@ -722,7 +722,8 @@ def _r8(run, mods):
     if isinstance(ret, S.Fmt):
         t, args = ret.resolved()
         want = ['str(%s#0).lower()' % p, 'str(%s#1).lower()' % p]
-        if [a.txt() for a in args] == want and t.count('{}') == 2:
+        want2 = ['str(%s[0]).lower()' % p, 'str(%s[1]).lower()' % p]        # the same two elements, spelled by index
+        if [a.txt() for a in args] in (want, want2) and t.count('{}') == 2:
             ok = True
     if ok:
         run.ok('C06-R8', 'encode_transition', ret.txt())
